@@ -128,3 +128,11 @@ pub mod context;
 mod group;
 mod nsec;
 mod utilities;
+
+/// Hooks for out-of-tree verification harnesses (not part of the API).
+#[cfg(nlnetlabs_domain_verif)]
+pub mod verif_hooks {
+    pub use super::nsec::{
+        nsec_in_range, nsec3_in_range, nsec3_label_to_hash,
+    };
+}
